@@ -3128,10 +3128,10 @@ class Set(Collection):
                 if not is_reverse_call:
                     for undo_func in reversed(undo_funcs): undo_func()
                 raise
-        if reverse is attr:
-            # a symmetric collection whose own owner is added / removed: reverse_add() / reverse_remove() above have handled it in
-            # this very collection already, with all the bookkeeping (added, removed) - it must not be recorded a second time
-            to_add.discard(obj); to_remove.discard(obj)
+        # the reverse calls above may have changed THIS very collection already, with all the bookkeeping (count, added, removed):
+        # reverse.__set__() of a one-to-many item goes through reverse_add() / reverse_remove() of this collection, and so does a
+        # symmetric collection for its own owner - only what they have not handled yet is recorded below
+        to_add -= setdata; to_remove &= setdata
         if is_reverse_call:
             old_items, old_count = set(setdata), setdata.count
             old_added = None if setdata.added is None else set(setdata.added)
